@@ -41,8 +41,8 @@ ASSUMPTIONS = ['group-by columns have a concrete type (Any-typed group-by column
                'documents contain no user formulas except formula columns added to summary tables',
                'a summary table whose source no longer has the group-by column (column removed) is judged on its '
                'remaining group-by columns as recorded in the metadata']
-BUDGET = {'quick': dict(examples=1600, shards=16, max_seconds=55),
-          'thorough': dict(examples=16000, shards=16, max_seconds=560)}
+BUDGET = {'quick': dict(examples=1400, shards=16, max_seconds=45),
+          'thorough': dict(examples=16000, shards=16, max_seconds=540)}
 SHRINK_BUDGET = {'quick': 100, 'thorough': 400}
 
 SRC, PEOPLE = 'Src', 'People'
